@@ -5,6 +5,8 @@
 WT="$1"; DIFF="$2"; DEMO="$3"; LOG="$4"; shift 4
 cd "$WT" || exit 9
 git checkout -q -- . || exit 9
+# follow /repo's HEAD (fix: commits made while seeds are being evaluated)
+git checkout -q --detach "$(git -C /repo rev-parse HEAD)" || exit 9
 {
 echo "== clean tree: demo"
 PYTHONPATH="$WT" timeout 300 /venv/bin/python "$DEMO" > "$LOG.demo_clean.txt" 2>&1; echo "demo_clean_exit=$?"
